@@ -56,9 +56,7 @@ pub fn drive(args: &[String]) {
     for s in syms_from_files(&files) {
         if !s.is_connected() { continue; }
         let n = s.size();
-        if !thorough && s.dim() == 3 && n == 2 && rng.gen_bool(0.6) { continue; }   // quick: a seeded 40% sample of the largest universe
-        let perms: Vec<Vec<usize>> = if n <= 2 || (thorough && n <= 4) { all_perms(n).into_iter().skip(1).collect() }
-            else if n == 3 { let mut a: Vec<Vec<usize>> = all_perms(n).into_iter().skip(1).collect(); a.shuffle(&mut rng); a.truncate(2); a } else { (0..4).map(|_| rand_perm(n, &mut rng)).collect() };
+        let perms: Vec<Vec<usize>> = if n <= 3 || (thorough && n <= 4) { all_perms(n).into_iter().skip(1).collect() } else { (0..4).map(|_| rand_perm(n, &mut rng)).collect() };
         add(&s, perms, &mut groups);
     }
     // (b) generator outputs with random renumberings, and their duals
